@@ -38,6 +38,9 @@ type onceObj struct{ done bool }
 var rtExternals = map[string]externalFn{}
 
 func (ex *explorer) newInput(name string, k types.BasicKind) value {
+	if ex.template {
+		panic(engineError{"symbolic input during package init"})
+	}
 	w, _, _, _ := kindInfo(k)
 	var t *smt.Term
 	if w == 0 {
@@ -415,7 +418,7 @@ func init() {
 
 	// ---- md5 (native on concrete input)
 	ext["crypto/md5.Sum"] = func(fr *frame, a []value) value {
-		cells := a[0].([]value)
+		cells := forceBytes(a[0].([]value))
 		b := make([]byte, len(cells))
 		for j, c := range cells {
 			bb, ok := c.(byte)
@@ -466,6 +469,9 @@ func init() {
 }
 
 func (ex *explorer) newEnvVar(name string, k types.BasicKind) value {
+	if ex.template {
+		panic(engineError{"environment value during package init"})
+	}
 	w, _, _, _ := kindInfo(k)
 	t := ex.ctx.Var("env."+name, smt.SBV, w)
 	return &sym{t: t, k: k}
@@ -777,4 +783,18 @@ func (i *interpreter) decimalCells(fr *frame, x *sym, signed bool) []value {
 		div *= 10
 	}
 	return append(out, digits...)
+}
+
+func init() {
+	// sync.RWMutex.RLocker: the read side as a sync.Locker
+	externals["(*sync.RWMutex).RLocker"] = func(fr *frame, a []value) value {
+		sp := fr.i.prog.ImportedPackage("sync")
+		t := sp.Type("rlocker")
+		if t == nil {
+			panic(engineError{"sync.rlocker not found"})
+		}
+		return iface{t: types.NewPointer(t.Type()), v: a[0]}
+	}
+	externals["(*sync.rlocker).Lock"] = externals["(*sync.RWMutex).RLock"]
+	externals["(*sync.rlocker).Unlock"] = externals["(*sync.RWMutex).RUnlock"]
 }
